@@ -15,9 +15,12 @@ What is compared (see ASSUMPTIONS in contracts/c08.py for the latitude):
     of the frame duration.  In roll-up and paint-on (writes to the displayed memory) the document may be AHEAD of the decoder within
     the burst of words being written (same line, no intervening pop-on), never behind.
 
-When the strict comparison fails the failure is *classified* by re-running the comparison under alternative clocks / row mappings
-that describe known defect classes (frame counter not advanced by suppressed duplicates, EDM stamped one frame late, absolute
-rows ignored, text shown before the line that carries it); the class only names the key, it never makes a failing stream pass.
+When the strict comparison fails the failure is *classified*: the comparison is repeated under descriptions of deviation classes
+(HYPOTHESES: frame counter not advanced by suppressed duplicates, EDM stamped one frame late, roll-up base row ignored, roll-up PACs
+for rows 5-11 ignored, ..., and the permissive "rows only relative" / "ahead across lines" per caption style); a greedy search looks
+for a small set under which the document conforms and the failure keys name the members of that set.  A stream that no set
+explains gets a `screen:<style>:<what differs>@<word class>` key, or the name of the situation it contains (caption style changed
+without erasing, text written over existing text).  The classes only NAME failures; they never make a failing stream pass.
 """
 import bisect
 import hashlib
@@ -898,23 +901,21 @@ def screen_equiv(doc_rows, ref_rows, abs_rows):
       return "text"
     if x:
       worst |= x
-  if worst:
-    return "style:" + "+".join(sorted(worst))
   if abs_rows:
-    if dk != rk:
-      return "row-position"
+    moved = dk != rk
   else:
     # the relative layout (blank rows between caption rows) still has to agree
-    if [a - dk[0] for a in dk] != [b - rk[0] for b in rk]:
-      return "row-position"
-  return None
+    moved = [a - dk[0] for a in dk] != [b - rk[0] for b in rk]
+  if worst:
+    return ("row-position+" if moved else "") + "style:" + "+".join(sorted(worst))
+  return "row-position" if moved else None
 
 
 # ----------------------------------------------------------------------------------------------------------------------
 # comparison
 
 
-SEVERITY = {"style": 1, "row-position": 2, "text": 3, "rows": 4}
+SEVERITY = {"style": 1, "row-position": 2, "row-position+style": 3, "text": 4, "rows": 5}
 
 
 class Mismatch:
@@ -922,8 +923,9 @@ class Mismatch:
     self.frame, self.index, self.what, self.doc_rows, self.ref_rows, self.mode, self.tag = frame, index, what, doc_rows, ref_rows, mode, tag
 
 
-def compare(ref: RefRun, doc: DocRun, D, clock=(), abs_rows=True, cross_lines=False, cache=None):
-  """-> None or the first Mismatch.  `clock`: subset of {"dup", "edm"} (classification only)"""
+def compare(ref: RefRun, doc: DocRun, D, clock=(), rel_modes=(), cross_modes=(), cache=None):
+  """-> None or the first Mismatch.  Classification only: `clock` subset of {"dup", "edm"}; `rel_modes`: caption styles for which only
+  the relative layout of the rows is compared; `cross_modes`: caption styles for which the document may be ahead across SCC lines"""
   n = len(ref.recv)
   if n == 0:
     return None
@@ -951,12 +953,13 @@ def compare(ref: RefRun, doc: DocRun, D, clock=(), abs_rows=True, cross_lines=Fa
     if i < 0:
       lo, hi = -1, -1
     else:
-      hi = ref.horizon(i, cross_lines)
+      hi = ref.horizon(i, ref.mode[i] in cross_modes)
       lo = jprev if i <= jprev <= hi else i
     ok = False
     closest = None
     for j in range(lo, hi + 1):
       ver = 0 if j < 0 else ref.version[j]
+      abs_rows = j < 0 or ref.mode[j] not in rel_modes
       ck = (k, ver, abs_rows)
       if ck not in cache:
         cache[ck] = screen_equiv(drows, ref.snap[ver], abs_rows)
@@ -987,9 +990,10 @@ def config_of(name):
   return SccReaderConfiguration(text_align=TextAlignment.from_value(name))
 
 
-HYPOTHESES = ["lazy-depth", "dup", "edm", "cross", "roll-base-15", "relrows", "roll-pac-5-11", "paint-space-pair-unstyled", "roll-row-after-edm-lost"]
+HYPOTHESES = ["lazy-depth", "dup", "edm", "roll-base-15", "roll-pac-5-11", "paint-space-pair-unstyled", "roll-row-after-edm-lost",
+              "cross:roll", "cross:paint", "relrows:pop", "relrows:roll", "relrows:paint"]
 QUIRKS = {"lazy-depth", "roll-base-15", "roll-pac-5-11", "paint-space-pair-unstyled", "roll-row-after-edm-lost"}
-GENERIC = {"cross", "relrows"}
+GENERIC = {"cross:roll", "cross:paint", "relrows:pop", "relrows:roll", "relrows:paint"}
 READINGS = [frozenset(), frozenset({"lazy-depth"})]      # accepted readings of the standard (never reported)
 HYP_TEXT = {
   "dup": ("time:early-after-doubled-code", C_TIME,
@@ -1038,7 +1042,9 @@ class Judge:
     q = frozenset(h for h in hyps if h in QUIRKS)
     ref = self.ref(q)
     clock = tuple(h for h in ("dup", "edm") if h in hyps)
-    return compare(ref, self.run, D, clock, "relrows" not in hyps, "cross" in hyps, self.caches[q])
+    rel = tuple(h.split(":")[1] for h in hyps if h.startswith("relrows:"))
+    cross = tuple(h.split(":")[1] for h in hyps if h.startswith("cross:"))
+    return compare(ref, self.run, D, clock, rel, cross, self.caches[q])
 
   def explain(self, D):
     """greedy search for a set of known deviations under which the document conforms -> (hypotheses, None) or
@@ -1067,7 +1073,14 @@ class Judge:
         return chosen, m
       chosen = chosen | set(best[1])
       m = best[2]
-    for h in sorted(chosen):
+    # minimal set: a specific deviation is kept when it matters without the permissive ones (which would cover for it)
+    def prog(hyps):
+      mm = self.first_mismatch(hyps, D)
+      return None if mm is None else _progress(mm)
+    for h in sorted(chosen - GENERIC):
+      if prog(chosen - GENERIC - {h}) == prog(chosen - GENERIC) and self.first_mismatch(chosen - {h}, D) is None:
+        chosen = chosen - {h}
+    for h in sorted(chosen & GENERIC):
       if self.first_mismatch(chosen - {h}, D) is None:
         chosen = chosen - {h}
     return chosen, None
@@ -1110,11 +1123,11 @@ def evaluate(text, cfg_name):
     info["D"] = D
     bref = judge.ref(frozenset(h for h in chosen if h in QUIRKS))
     for h in sorted(chosen):
-      if h not in HYP_TEXT:
+      if h.split(":")[0] not in HYP_TEXT:
         continue
-      key, contract, msg = HYP_TEXT[h]
-      m = judge.first_mismatch(chosen - {h}, D)
-      mode = str(m.mode)
+      key, contract, msg = HYP_TEXT[h.split(":")[0]]
+      m = judge.first_mismatch(chosen - {h}, D) or judge.first_mismatch(chosen - GENERIC - {h}, D)
+      mode = h.split(":")[1] if ":" in h else str(m.mode)
       if h in GENERIC and (bref.switches[-1] or bref.overwrites[-1]):
         # the permissive descriptions say little in streams that change the caption style without erasing or write over existing
         # text: name the situation instead
